@@ -113,6 +113,11 @@ func getResolutionOptions(req *http.Request) ([]document.ResolutionOption, error
 		return nil, fmt.Errorf("invalid query: %s", err.Error())
 	}
 
+	// Get() answers with the first of several values: '?versionId=&versionId=x' would read as no version at all
+	if len(query[versionIDParam]) > 1 || len(query[versionTimeParam]) > 1 {
+		return nil, fmt.Errorf("'%s' and '%s' can be given only once", versionIDParam, versionTimeParam)
+	}
+
 	versionID := query.Get(versionIDParam)
 	if versionID != "" {
 		resolutionOpts = append(resolutionOpts, document.WithVersionID(versionID))
